@@ -116,6 +116,7 @@ type trCtx struct {
 	deadAlias    map[types.Object]bool                          // trans_tree.go: aliases into a tree that was modified since
 	pureLits     map[*ast.FuncLit]string                        // trans_tree.go: function literals already translated as pure definitions
 	postLits     map[*ast.FuncLit]*trPostLit                    // trans_tree.go: function literals already translated for PostOrder
+	stdoutObj    *types.Var                                     // closure whose constructor logs fmt.Printf (trans_units_perf.go)
 	synth        map[ast.Expr]string                            // synthetic expression nodes that carry a translated term (trans_units_jprinter.go)
 	writerMove   *trWriterMove                                  // the io.Writer parameter lives in a field of a local (trans_units_jprinter.go)
 }
@@ -249,6 +250,9 @@ func (c *trCtx) exprAs(e ast.Expr, ty types.Type) string {
 		}
 	}
 	if c.isNil(e) {
+		if r, ok := c.perfNil(e, ty); ok {
+			return r
+		}
 		switch {
 		case trIsError(ty):
 			return "(none : Option Error)"
@@ -337,6 +341,9 @@ func (c *trCtx) expr(e ast.Expr) string {
 			}
 			return lit
 		}
+		if trIsFloat(ty) {
+			return c.floatConst(tv.Value, e.Pos())
+		}
 		trFail(e.Pos(), "constant of type %s is outside the subset", ty)
 	}
 	switch x := e.(type) {
@@ -416,6 +423,9 @@ func (c *trCtx) ident(x *ast.Ident) string {
 			trFail(x.Pos(), "%s points into a tree that was modified (other than through it) since: outside the subset", x.Name)
 		}
 		if n, ok := c.names[o]; ok {
+			if c.nilSliceVar(o) {
+				return "(Option.getD " + n + " [])" // read as a list: nil reads as empty (trans_units_perf.go)
+			}
 			return n
 		}
 		if c.opaqueParams[o] {
@@ -511,10 +521,13 @@ func (c *trCtx) unary(x *ast.UnaryExpr) string {
 	case token.NOT:
 		return "(!" + c.expr(x.X) + ")"
 	case token.SUB:
-		if trIsInt(c.typeOf(x.X)) {
+		if trIsInt(c.typeOf(x.X)) || trIsFloat(c.typeOf(x.X)) {
 			return "(-" + c.expr(x.X) + ")"
 		}
 	case token.AND:
+		if m, ok := trAddrOfMap(c.info(), x); ok {
+			return c.expr(m) // a pointer to a map is the map (trans_units_perf.go)
+		}
 		// &T{…} / &x of a pointer handled as a value
 		c.leanType(c.typeOf(x), x.Pos())
 		if _, ok := x.X.(*ast.CompositeLit); ok {
@@ -538,14 +551,7 @@ func (c *trCtx) isNil(e ast.Expr) bool {
 func (c *trCtx) binary(x *ast.BinaryExpr) string {
 	switch x.Op {
 	case token.LAND, token.LOR:
-		a := c.expr(x.X)
-		c.noHoist++
-		b := c.expr(x.Y)
-		c.noHoist--
-		if x.Op == token.LAND {
-			return "(" + a + " && " + b + ")"
-		}
-		return "(" + a + " || " + b + ")"
+		return c.shortCircuit(x) // an effectful right operand runs only when the left one lets it (trans_units_perf.go)
 	}
 	// comparison with nil: errors only
 	if x.Op == token.EQL || x.Op == token.NEQ {
@@ -556,6 +562,9 @@ func (c *trCtx) binary(x *ast.BinaryExpr) string {
 			other = x.Y
 		}
 		if other != nil {
+			if r, ok := c.nilPtrCompare(other, x.Op); ok {
+				return r
+			}
 			if sel, ok := c.nilableSel(other); ok {
 				if x.Op == token.EQL {
 					return "(Option.isNone " + c.nilableRaw(sel) + ")"
@@ -595,6 +604,9 @@ func (c *trCtx) binary(x *ast.BinaryExpr) string {
 	}
 	tx, ty := c.typeOf(x.X), c.typeOf(x.Y)
 	a, b := c.expr(x.X), c.expr(x.Y)
+	if r, ok := c.floatBinary(x, tx, ty, a, b); ok {
+		return r
+	}
 	switch x.Op {
 	case token.EQL, token.NEQ:
 		if _, ok := tx.Underlying().(*types.Pointer); ok {
@@ -660,6 +672,9 @@ func (c *trCtx) selector(x *ast.SelectorExpr) string {
 		case types.FieldVal:
 			if len(sel.Index()) != 1 {
 				trFail(x.Pos(), "selection of the promoted field %s is outside the subset", x.Sel.Name)
+			}
+			if r, ok := c.perfSelect(x, sel); ok {
+				return r // through a nilable pointer / of a nilable map field (trans_units_perf.go)
 			}
 			c.leanType(sel.Recv(), x.Pos())
 			if c.t.fieldOmitted(sel.Recv(), x.Sel.Name) {
@@ -834,6 +849,9 @@ func (c *trCtx) call(x *ast.CallExpr) string {
 			c.leanType(to, x.Pos())
 			return c.expr(x.Args[0])
 		}
+		if trIsInt(from) && trIsFloat(to) {
+			return "((" + c.expr(x.Args[0]) + " : Int) : Rat)" // exact (trans_units_perf.go)
+		}
 		trFail(x.Pos(), "conversion from %s to %s is outside the subset", from, to)
 	}
 	// builtins
@@ -850,6 +868,9 @@ func (c *trCtx) call(x *ast.CallExpr) string {
 		return c.call(&y)
 	}
 	if r, ok := c.treeCallExpr(x); ok {
+		return r
+	}
+	if r, ok := c.perfGetExpr(x); ok {
 		return r
 	}
 	if fo := c.calledFunc(x); fo != nil {
@@ -910,6 +931,10 @@ func (c *trCtx) call(x *ast.CallExpr) string {
 		if calleePinned {
 			args = append(args, c.expr(a)) // the prelude's helpers take plain Lean functions
 		} else if i < sigParams.Len() && !fobj.Type().(*types.Signature).Variadic() {
+			if trNilSliceParam(fobj, i) {
+				args = append(args, c.nilSliceValue(a, sigParams.At(i).Type()))
+				continue
+			}
 			args = append(args, c.identityArg(fobj, i, a, c.exprAs(a, sigParams.At(i).Type())))
 		} else {
 			args = append(args, c.expr(a))
@@ -982,6 +1007,8 @@ func (c *trCtx) builtin(name string, x *ast.CallExpr) string {
 			els = append(els, c.expr(a))
 		}
 		return "(" + c.expr(x.Args[0]) + " ++ [" + strings.Join(els, ", ") + "])"
+	case "new":
+		return c.perfNew(x)
 	case "make":
 		ty := c.typeOf(x)
 		lt := c.leanType(ty, x.Pos())
